@@ -9,7 +9,7 @@ Local Open Scope R_scope.
 Ltac cunf := cbv [Hu angcol lincol ex ey ez o3 xf_id RotX RotY RotZ Weld_X Weld_H Pin_X Pin_H Slider_X Slider_H Screw_X Screw_H
   Universal_X Universal_H Cylinder_X Cylinder_H BendStretch_X BendStretch_H Planar_X Planar_H Translation_X Translation_H
   Gimbal_X Gimbal_axes Gimbal_H Bushing_X Bushing_H quatR Ball_Xq Ball_Xe Ball_H Ball_Nq Ball_Ne Ball_NInvq Ball_NInve
-  Ball_NDotq Ball_NDote Free_Xq Free_Xe Free_H Line_H up3 dn2 Line_Nq Line_Ne Line_NInvq Line_NInve Line_NDotq_impl Line_NDote
+  Ball_NDotq Ball_NDote Free_Xq Free_Xe Free_H Line_H up3 dn2 Line_Nq Line_Ne Line_NInvq Line_NInve Line_NDotq Line_NDotq_prefix Line_NDote
   Sph_R Sph_axis Sph_X Sph_H Ell_p Ell_Xq Ell_Xe vmul3 Ell_H rev_X rev_col rev_H rev_vel is_rot I33
   sc_az0 sc_s0 sc_ze0 sc_s1 sc_axisX sc_s2 map app]; unf.
 Ltac sc x := generalize (sc1 x); intro.
